@@ -157,6 +157,18 @@ type conn struct {
 	s *Server
 }
 
+// netErr makes the pipe's errors look like those of a TCP connection (a *net.OpError, which go-redis retries),
+// not like io.ErrClosedPipe (which it would treat as a non-retryable application error).
+func netErr(op string, err error) error {
+	if err == nil || err == io.EOF {
+		return err
+	}
+	if errors.Is(err, io.ErrClosedPipe) {
+		return &net.OpError{Op: op, Net: "tcp", Err: errors.New("connection reset by peer (simulated)")}
+	}
+	return err
+}
+
 func (c *conn) Write(p []byte) (int, error) {
 	if c.s.Latency > 0 {
 		zsim.Sleep(c.s.Latency)
@@ -165,9 +177,10 @@ func (c *conn) Write(p []byte) (int, error) {
 		c.s.DropRequest--
 		c.s.R.FaultFired("redis-reset-before-delivery")
 		c.Conn.Close()
-		return 0, errors.New("write: connection reset by peer (simulated)")
+		return 0, &net.OpError{Op: "write", Net: "tcp", Err: errors.New("connection reset by peer (simulated)")}
 	}
-	return c.Conn.Write(p)
+	n, err := c.Conn.Write(p)
+	return n, netErr("write", err)
 }
 
 func (c *conn) Read(p []byte) (int, error) {
@@ -179,5 +192,9 @@ func (c *conn) Read(p []byte) (int, error) {
 		c.Conn.Close()
 		return 0, io.ErrUnexpectedEOF
 	}
-	return n, err
+	return n, netErr("read", err)
 }
+
+func (c *conn) SetDeadline(t time.Time) error      { return netErr("set", c.Conn.SetDeadline(t)) }
+func (c *conn) SetReadDeadline(t time.Time) error  { return netErr("read", c.Conn.SetReadDeadline(t)) }
+func (c *conn) SetWriteDeadline(t time.Time) error { return netErr("write", c.Conn.SetWriteDeadline(t)) }
